@@ -41,13 +41,13 @@ func runCodec(args []string) int {
 			continue
 		}
 		// id maps: distinct ids; classes: all small, all large, mixed, at the boundary
-		cls := i % 4
+		cls := i % 5
 		used := map[int]bool{}
 		pick := func() circuit.Wire {
 			for {
 				var v int
 				switch {
-				case cls == 0:
+				case cls == 0 || cls == 4:
 					v = r.Intn(0x10000)
 				case cls == 1:
 					v = 0x10000 + r.Intn(0x30000)
@@ -88,6 +88,31 @@ func runCodec(args []string) int {
 			nout := c.Outputs.Size()
 			if nout > c.NumWires-nin {
 				nout = c.NumWires - nin
+			}
+			if cls == 4 {
+				// a circuit with more than 65536 wires: temporary wire
+				// indexes above 65535 (some below) while every persistent
+				// id is small
+				ofs := 0x10000 - c.NumWires/2 + r.Intn(0x8000)
+				if r.Intn(3) == 0 {
+					ofs = 0xffff - nin - r.Intn(3) // first temporaries right at the boundary
+				}
+				firstOut := c.NumWires - nout
+				cut := nin + r.Intn(firstOut-nin+1) // temporaries below cut keep their index
+				mapw := func(w circuit.Wire) circuit.Wire {
+					if int(w) < cut {
+						return w
+					}
+					return w + circuit.Wire(ofs)
+				}
+				for gi := range c.Gates {
+					g := &c.Gates[gi]
+					g.Input0, g.Output = mapw(g.Input0), mapw(g.Output)
+					if g.Op != circuit.INV {
+						g.Input1 = mapw(g.Input1)
+					}
+				}
+				c.NumWires += ofs
 			}
 			in := make([]circuit.Wire, nin)
 			bits := make([]bool, nin)
